@@ -779,6 +779,33 @@ def check_loop(ctx):
            'events are sampled from the propensity buffer whose sum is Lambda, over all propensities', '')
 
 
+def check_fresh_buffers(ctx):
+    """The arrays a cell's result is built from (np.asarray: no copy) belong to that cell alone: the helper SimulateSingleCell calls first
+    allocates fresh result and volume arrays on every path - a kept buffer is still the record of the previous cell."""
+    f = ctx.fn('lineage:LineageSSASimulator.initialize_single_cell_results_arrays')
+    ps = paths.Enumerator().run(f.body, paths.State())
+    ctx.paths += len(ps)
+    defs = util.single_defs(f)
+    problems = []
+    for p in ps:
+        if p.exit == 'raise':
+            continue
+        got = {}
+        for e in p.stmts():
+            if isinstance(e.node, ast.Assign) and src(e.node.targets[0]) in ('self.c_results', 'self.c_volume_trace'):
+                v = util.resolve_alias(e.node.value, defs)
+                got[src(e.node.targets[0])] = src(v).replace(' ', '')
+        for attr in ('self.c_results', 'self.c_volume_trace'):
+            if not got.get(attr, '').startswith(('np.zeros(', 'np.empty(', 'numpy.zeros(')):
+                problems.append('a path leaves %s as it was (%s) [%s]' % (attr, got.get(attr, 'not assigned'), paths.describe(p, 4)))
+    g = ctx.fn('lineage:LineageSSASimulator.SimulateSingleCell')
+    calls = [c for c in ast.walk(g) if isinstance(c, ast.Call) and src(c.func) == 'self.initialize_single_cell_results_arrays']
+    if not calls:
+        problems.append('SimulateSingleCell does not allocate its result arrays')
+    ctx.ob('R19.4-rows-written', 'fresh-buffers', not problems, ctx.loc('lineage', f),
+           'every cell is recorded in result and volume arrays allocated for it (no buffer is kept from the previous cell)', '; '.join(sorted(set(problems))[:2]))
+
+
 def check_grid_steps(ctx):
     """Every row was actually simulated: one pass of the lineage loop never carries the clock past a grid step that is still pending
     (volume rules, division and death rules run once per grid step, also while reactions are rare).  The time-advance block of the loop
@@ -1067,6 +1094,7 @@ def check(ctx):
     check_splitter_choice(ctx)
     check_loop(ctx)
     check_grid_steps(ctx)
+    check_fresh_buffers(ctx)
     check_own_state(ctx)
     check_parallel_queues(ctx)
     ctx.floor('R19.3-queues-parallel', 3)
